@@ -186,36 +186,7 @@ func (c *Check) dialSingleResult(rule string) {
 // chanNameThroughParams names a channel; a channel parameter of a helper the
 // rules do not know is named after the argument its callers pass.
 func (p *Prog) chanNameThroughParams(fn *ssa.Function, v ssa.Value) string {
-	prm, ok := v.(*ssa.Parameter)
-	if !ok || knownFuncs[p.Name(fn)] {
-		return chanFieldName(v)
-	}
-	idx := -1
-	for i, q := range fn.Params {
-		if q == prm {
-			idx = i
-		}
-	}
-	name := ""
-	for _, g := range p.FuncSeq {
-		allInstrs(g, func(in ssa.Instruction) {
-			ci, ok := in.(ssa.CallInstruction)
-			if !ok || p.staticLocalCallee(ci) != fn {
-				return
-			}
-			args := ci.Common().Args
-			if idx >= 0 && idx < len(args) {
-				n := p.chanNameThroughParams(g, args[idx])
-				if name == "" || name == n {
-					name = n
-				} else {
-					name = "?"
-				}
-			}
-		})
-	}
-	if name == "" {
-		return prm.Name()
-	}
-	return name
+	// channel identity is by creation site (chanflow.go), however the value
+	// reached this function
+	return chanFieldName(v)
 }
